@@ -17,6 +17,7 @@ def gen_C01(ctx):
     out += st_malformed(ctx, ctx.n(6000, 400000), shapes, "c01-mal")
     out += st_tokens(ctx, ["S"], 3 if ctx.tier == "quick" else 4, TOKENS_Q, prefix="pkg:t/")
     out += st_token_sample(ctx, ctx.n(4000, 300000), shapes, TOKENS_T, "c01-tok")
+    out += st_long(ctx, shapes, "c01-long", every=ctx.tier == "thorough")
     return out
 
 
@@ -45,6 +46,7 @@ def gen_C04(ctx):
     out += st_malformed(ctx, ctx.n(5000, 300000), shapes, "c04-mal")
     out += st_builder(ctx, ctx.n(8000, 400000), ["S", "P", "CB", "CO", "M"], "c04-build")
     out += st_shape(ctx, ctx.n(3000, 100000), "c04-shape")
+    out += st_long(ctx, shapes, "c04-long", every=ctx.tier == "thorough")
     return out
 
 
@@ -56,6 +58,7 @@ def gen_C06(ctx):
     out += st_builder(ctx, ctx.n(6000, 500000), ["S", "P", "CB", "CO", "M"], "c06-build", maxsteps=8)
     out += st_quals(ctx, ctx.n(4000, 300000), "c06-quals")
     out += st_cksum(ctx, ctx.n(3000, 300000), "c06-cksum")
+    out += st_long(ctx, shapes, "c06-long", every=ctx.tier == "thorough") + st_long_api(ctx)
     out += [case("build S %s %s ck:-" % (hx("t"), hx("n")), "empty-checksum"),
             case("cksum text", "empty-checksum"), case("cksum rt;iter;algs", "empty-checksum"),
             case("build P Cargo %s ck:-;ck:ins.%s.-" % (hx("n"), hx("a")), "empty-checksum")]
@@ -154,6 +157,7 @@ def gen_C08(ctx):
 
 def gen_C09(ctx):
     out = st_builder(ctx, ctx.n(14000, 800000), ["S", "P"], "c09-build")
+    out += [c for c in st_long_api(ctx) if c["req"].startswith("build ") and c.get("shape") in ("S", "P")]
     fixed = [("P", "Maven", "n", "ns:" + hx("/")), ("S", hx("t"), "n", "q:%s:%s" % (hx("k"), hx("a&b"))),
              ("S", hx("t"), "n", "q:%s:%s" % (hx("k"), hx("a&l=c"))), ("P", "Maven", "n", "ns:" + hx("//")),
              ("S", hx("t"), "n", "ns:%s;sub:%s" % (hx("a//b/"), hx("/x/./y/../z/")))]
@@ -186,6 +190,7 @@ def gen_C05(ctx):
     out += st_tokens(ctx, ["S"], 2 if ctx.tier == "quick" else 3, TOKENS_T, prefix="pkg:")
     out += st_token_sample(ctx, ctx.n(4000, 300000), shapes, TOKENS_T, "c05-tok")
     out += st_pieces_random(ctx, ctx.n(2000, 100000), shapes, "c05-pieces")
+    out += st_long(ctx, shapes, "c05-long", every=ctx.tier == "thorough")
     return out
 
 
@@ -196,6 +201,7 @@ def gen_C07(ctx):
     out += st_pieces_random(ctx, ctx.n(6000, 500000), ["S", "M", "P"], "c07-pieces")
     out += st_spellings(ctx, ctx.n(4000, 300000), ["S", "P"], "c07-spell", group=1)
     out += st_malformed(ctx, ctx.n(4000, 300000), ["S", "P"], "c07-mal")
+    out += st_long(ctx, ["S", "M", "P"], "c07-long", every=ctx.tier == "thorough")
     return out
 
 
@@ -203,6 +209,7 @@ def gen_C11(ctx):
     out = st_quals_exhaustive(ctx, 2 if ctx.tier == "quick" else 3)
     out += st_quals(ctx, ctx.n(12000, 800000), "c11-quals", maxsteps=10, documented_panics=True)
     out += st_qcmp(ctx, ctx.n(3000, 200000), "c11-qcmp")
+    out += [c for c in st_long_api(ctx) if c["req"].startswith("quals ")]
     return out
 
 
@@ -231,6 +238,7 @@ def gen_C12(ctx):
     out = st_cksum(ctx, ctx.n(9000, 600000), "c12-cksum")
     out += st_cksum_orders(ctx, ctx.n(2500, 150000), "c12-orders")
     out += st_cksum_purl(ctx, ctx.n(4000, 300000), "c12-purl")
+    out += [c for c in st_long_api(ctx) if c["req"].startswith("cksum ")]
     out += [case("cksum text", "empty"), case("cksum rt", "empty"), case("cksum ins:%s:-;text;rt;get:%s" % (hx("a"), hx("a")), "empty")]
     # all entry sets up to 3 from a small universe, all insertion orders
     import itertools
@@ -333,6 +341,7 @@ def gen_C17(ctx):
     out += st_quals(ctx, ctx.n(1500, 100000), "c17-quals")
     out += st_cksum(ctx, ctx.n(1000, 100000), "c17-cksum")
     out += st_ptype_exhaustive()[:400]
+    out += st_long(ctx, shapes, "c17-long", every=ctx.tier == "thorough") + st_long_api(ctx)
     return out
 
 
